@@ -150,7 +150,7 @@ fn c03_init(ni: usize) -> u8 {
             while j < ni {
                 kani::assert(wf[j], "VERIF:C03:construction installs only well-formed sets");
                 kani::assert(model::storage_get(&gw(), 1, &k(&DataKey::SignersHashByEpoch(j as u64 + 1))) == Some(model::val_of(&BytesN(hs[j])))
-                    && model::storage_get(&gw(), 1, &k(&DataKey::EpochBySignersHash(BytesN(hs[j])))) == Some(model::val_of(&(j as u64 + 1))), "VERIF:C03:initial sets get epochs 1..n with inverse lookups");
+                    && model::storage_get(&gw(), 1, &k(&DataKey::EpochBySignersHash(BytesN(hs[j])))) == Some(model::val_of(&(j as u64 + 1))), "VERIF:C03,C08:initial sets get epochs 1..n, in the order listed, with inverse lookups");
                 j += 1;
             }
             kani::assert(ni < 2 || hs[0] != hs[1], "VERIF:C03:duplicate initial sets fail construction");
